@@ -379,5 +379,9 @@ func (r *Rows) Scan(dest ...any) error {
 	return nil
 }
 
-func (r *Rows) Close()     { r.closed = true }
+// Close is idempotent and harmless after Next returned false (which already closed the rows).
+func (r *Rows) Close() { r.closed = true }
+
+// Err reports the injected fault that made Next return false (or Scan fail); nil for "no more rows".
+// Neither Close nor Err is a fault point: they consume no oracle entry and are not logged.
 func (r *Rows) Err() error { return r.err }
